@@ -9,7 +9,7 @@ for d in glob.glob(f"{src}/demo.*"): shutil.copy(d,dst)
 shutil.copy(f"{src}/README.md",f"{dst}/AGENT_README.md")
 head=subprocess.check_output(['git','-C',f'{root}/{P}','log','--format=%h','-1']).decode().strip()
 json.dump({"id":nid,"property":P,"what":what,"needs_to_manifest":needs,
-  "author":f"independent sub-agent, round 2-5 (saw only the property text, a list of earlier ideas to avoid, and a scratch worktree of /repo at {head})",
+  "author":f"independent sub-agent, round {os.environ.get('ROUND','9')} (saw only the property text, a list of earlier ideas to avoid, and a scratch worktree of /repo at {head})",
   "confirmed":{"worktree":f"{root}/{P} (scratch, removed afterwards)","tests_with_change":"149 passed 0 failed (cargo test --workspace --no-fail-fast --offline)","demo_with_change_exit":1,"demo_without_change_exit":0,"how":"tools/confirm_mutant.sh"},
   "caught_by": []}, open(f"{dst}/meta.json","w"), indent=1)
 print("imported", nid)
